@@ -23,8 +23,8 @@
    Not proved here: fairness of the scheduler and of Mutex/Condvar (a runnable thread runs). *)
 From Coq Require Import NArith ZArith List Bool Arith.
 From Blue Require Import Gen.Const_Stall Lsm.Model Stall.Select Stall.Known Stall.Proto
-  Stall.ProofsBounds Stall.ProofsAdm Stall.ProofsNext Stall.ProofsTotal Stall.ProofsStall Stall.ProofsRelief Stall.ProofsProto Stall.ProofsMeasure Stall.ProofsProgress
-  Lsm.History Stall.EndToEnd.
+  Stall.ProofsBounds Stall.ProofsAdm Stall.ProofsNext Stall.ProofsTotal Stall.ProofsStall Stall.ProofsRelief Stall.ProofsProto Stall.ProofsMeasure Stall.ProofsProgress.
+From Blue Require Lsm.History Stall.EndToEnd.
 Import ListNotations.
 Open Scope N_scope.
 
@@ -207,13 +207,13 @@ Proof. vm_compute. repeat split. Qed.
    any timestamp, a last-level garbage collection changes no visible value - and the store
    invariant (well-formed levels, Ordered) is kept, so the next selection starts from such a tree. *)
 Theorem C20_selected_merge_preserves_reads : forall s o og out c outs,
-  Inv s -> sel_wfb (ver s) = true -> next_compaction o (ver s) og = Ok out -> nc_choice out = Some c ->
+  History.Inv s -> sel_wfb (ver s) = true -> next_compaction o (ver s) og = Ok out -> nc_choice out = Some c ->
   outputs_okb (ver s) (cc c) outs = true ->
-  Inv (compact s (cc c) outs) /\ forall k t, load (compact s (cc c) outs) k t = load s k t.
-Proof. exact selected_merge_preserves_reads. Qed.
+  History.Inv (compact s (cc c) outs) /\ forall k t, load (compact s (cc c) outs) k t = load s k t.
+Proof. exact EndToEnd.selected_merge_preserves_reads. Qed.
 
 Theorem C20_selected_gc_preserves_visible_values : forall s o og out c outs,
-  Inv s -> sel_wfb (ver s) = true -> next_compaction o (ver s) og = Ok out -> nc_choice out = Some c ->
+  History.Inv s -> sel_wfb (ver s) = true -> next_compaction o (ver s) og = Ok out -> nc_choice out = Some c ->
   S (cupper (cc c)) = length (ver s) -> gc_outputs_okb (ver s) (cc c) outs = true ->
-  Inv (compact s (cc c) outs) /\ forall k, get (compact s (cc c) outs) k = get s k.
-Proof. exact selected_gc_preserves_visible_values. Qed.
+  History.Inv (compact s (cc c) outs) /\ forall k, get (compact s (cc c) outs) k = get s k.
+Proof. exact EndToEnd.selected_gc_preserves_visible_values. Qed.
